@@ -51,6 +51,7 @@ import (
 
 const (
 	ref       = "eth-main"
+	ref2      = "bnb-main"
 	erc20     = "0x1111111111111111111111111111111111111111"
 	ethPrefix = "\x19Ethereum Signed Message:\n32"
 )
@@ -66,6 +67,9 @@ type ghost struct {
 	// spelling only: an alias registration uses lower-case hex and a zero-padded
 	// 32-byte Pubkey, both of which the chain resolves to the same key).
 	Lit []string
+	// Reg2[v]: address of the key validator v has registered for the SECOND chain
+	// ("" = no account there); nil outside the two-chains scenario.
+	Reg2 []string
 	// Sig[item][validator name]: address of the key that validator had
 	// registered when its stored signature on item was accepted.
 	Sig map[string]map[string]string
@@ -77,7 +81,7 @@ type ghost struct {
 }
 
 func (g *ghost) Clone() explore.Ghost {
-	n := &ghost{Reg: append([]string{}, g.Reg...), Lit: append([]string{}, g.Lit...), Sig: map[string]map[string]string{}, Prev: map[string]string{}, obs: g.obs, depth: g.depth + 1}
+	n := &ghost{Reg: append([]string{}, g.Reg...), Lit: append([]string{}, g.Lit...), Reg2: append([]string(nil), g.Reg2...), Sig: map[string]map[string]string{}, Prev: map[string]string{}, obs: g.obs, depth: g.depth + 1}
 	for it, m := range g.Sig {
 		n.Sig[it] = map[string]string{}
 		for k, v := range m {
@@ -92,11 +96,12 @@ func (g *ghost) Clone() explore.Ghost {
 
 func (g *ghost) Key() string {
 	b, _ := json.Marshal(struct {
-		R []string
-		L []string
-		S map[string]map[string]string
-		P map[string]string
-	}{g.Reg, g.Lit, g.Sig, g.Prev})
+		R  []string
+		L  []string
+		R2 []string
+		S  map[string]map[string]string
+		P  map[string]string
+	}{g.Reg, g.Lit, g.Reg2, g.Sig, g.Prev})
 	return string(b)
 }
 
@@ -129,6 +134,7 @@ type env struct {
 	r        *report.Run
 	queues   []string
 	tq       string
+	tq2      string                       // turnstone queue of the second chain (two-chains scenario only)
 	keys     map[string]*ecdsa.PrivateKey // address hex -> key
 	orig     []string                     // validator -> address of the genesis-registered key
 	alt      []string                     // validator -> address of its second key
@@ -262,7 +268,7 @@ func run(r *report.Run, shard, nshards int, replayFile string) {
 		panic(fmt.Sprintf("scenario set-up incomplete: %v", kinds))
 	}
 
-	r.Rule = "four BFS scenarios (operations on the SubmitLogicCall only / the UpdateValset only / the batch only / all three), each from the set-up state and from a seeded state where two of three validators have already estimated the scenario's items; alphabet Sign(v,m,kind) / Estimate(v,m,g) / EndCons (module-manager end-block: estimate election, fee attachment by in-place replacement) / Confirm(v,b,kind) / EstBatch(v,b,g) / EndSky (skyway end-blocker: election, checkpoint recomputed) / ReRegister(v,key: own first, own second, first key of the previous validator, the previous validator's current or former key spelled differently (lower-case address, zero-padded 32-byte Pubkey)) with kind in {valid, garbage, other validator's key under own address, other validator's key and address, duplicate, signature over the item's previous bytes, own previous key}; every transition is a really signed tx through ante + router or a real end-blocker; in every state each stored signature / batch confirm is recovered with go-ethereum SigToPub over the item's current signing bytes; a state is distinct by (consensus, skyway, valset stores, ghost)"
+	r.Rule = "scenario two-chains: a second active chain with its own published UpdateValset (v0 registered there with another key, v1 with the same key, v2 not at all); Sign with one entry or with two entries in one MsgAddMessagesSignatures (first chain's SubmitLogicCall + second chain's UpdateValset, both orders, every assignment of the validator's two keys) and the end-block; the ghost records the key registered for the item's own chain and a rejected transaction must leave no signature. Then four BFS scenarios (operations on the SubmitLogicCall only / the UpdateValset only / the batch only / all three), each from the set-up state and from seeded states where two of three validators have already estimated the scenario's items (21000; 300000); alphabet Sign(v,m,kind) / Estimate(v,m,g) / EndCons (module-manager end-block: estimate election, fee attachment by in-place replacement) / Confirm(v,b,kind) / EstBatch(v,b,g) / EndSky (skyway end-blocker: election, checkpoint recomputed) / ReRegister(v,key: own first, own second, first key of the previous validator, the previous validator's current or former key spelled differently (lower-case address, zero-padded 32-byte Pubkey)) with kind in {valid, garbage, other validator's key under own address, other validator's key and address, duplicate, signature over the item's previous bytes, own previous key}; every transition is a really signed tx through ante + router or a real end-blocker; in every state each stored signature / batch confirm is recovered with go-ethereum SigToPub over the item's current signing bytes; a state is distinct by (consensus, skyway, valset stores, ghost)"
 	r.Assumptions = []string{
 		"tx atomicity re-implemented as in baseapp.runTx (ante cache, msg cache)",
 		"height and time are fixed at 101 (only h mod 10/50/300 and batch time-outs are read by the explored code; none of them fires)",
@@ -308,6 +314,23 @@ func run(r *report.Run, shard, nshards int, replayFile string) {
 		{"all-items", []string{mkey, vkey, bkey}, 3, 5, 1.0},
 	}
 	var specs []explore.Spec
+	{
+		// two-chains: a second active chain with its own UpdateValset; v0 has a
+		// different key there, v1 the same key, v2 no account. One transaction may
+		// carry signatures for items of both chains.
+		n2, keyB := e.twoChains(ctx, g0)
+		d := 3
+		if r.Thorough() {
+			d = 4
+		}
+		if s := os.Getenv("C06_DEPTH"); s != "" {
+			fmt.Sscanf(s, "%d", &d)
+		}
+		specs = append(specs, explore.Spec{Name: "two-chains", Init: []*explore.Node{n2}, Hash: hash, Invariant: e.invariant,
+			Ops:      func(n *explore.Node) []explore.Op { return e.ops2(n, mkey, keyB) },
+			MaxDepth: d, Deadline: start.Add(time.Duration(float64(deadline.Sub(start)) * 0.08)), MaxStates: 80_000,
+			ShardDepth: 2, Shard: shard, NShards: nshards})
+	}
 	for _, sc := range scens {
 		sc := sc
 		filter := map[string]bool{}
@@ -374,6 +397,98 @@ func run(r *report.Run, shard, nshards int, replayFile string) {
 		}
 		e.txmemo = map[string]sdk.Tx{}
 	}
+}
+
+// twoChains forks the set-up state and adds a second active chain through the
+// keeper APIs the governance / registration handlers use: chain accounts (v0: its
+// second key, v1: the key it also uses on the first chain, v2: none), relayer
+// fees, a new snapshot and the UpdateValset the evm keeper publishes for it.
+func (e *env) twoChains(ctx sdk.Context, g0 *ghost) (*explore.Node, string) {
+	w := e.w
+	c := world.Fork(ctx)
+	must(w.AddChain(c, ref2, 56, 2))
+	g := g0.Clone().(*ghost)
+	g.depth = 0
+	g.Reg2 = []string{e.alt[0], e.orig[1], ""}
+	for i, v := range w.Vals {
+		infos := []*vtypes.ExternalChainInfo{{ChainType: "evm", ChainReferenceID: ref, Address: e.orig[i], Pubkey: ethcommon.HexToAddress(e.orig[i]).Bytes()}}
+		if g.Reg2[i] != "" {
+			infos = append(infos, &vtypes.ExternalChainInfo{ChainType: "evm", ChainReferenceID: ref2, Address: g.Reg2[i], Pubkey: ethcommon.HexToAddress(g.Reg2[i]).Bytes()})
+			must(w.SetFee(c, v, ref2, "1.0"))
+		}
+		must(w.App.ValsetKeeper.AddExternalChainInfo(c, v.ValAddr, infos))
+	}
+	e.tq2 = world.TurnstoneQueue(ref2)
+	e.queues = []string{e.tq, e.tq2}
+	snap, err := w.Snapshot(c)
+	must(err)
+	if len(w.Queue(c, e.tq2)) == 0 {
+		if snap == nil {
+			snap, err = w.App.ValsetKeeper.GetCurrentSnapshot(c)
+			must(err)
+		}
+		must(w.App.EvmKeeper.PublishSnapshotToAllChains(c, snap, true))
+	}
+	g.obs = e.observe(c)
+	keyB := ""
+	for k, it := range g.obs {
+		if it.Queue == e.tq2 && it.What == "UpdateValset" {
+			keyB = k
+		}
+	}
+	if keyB == "" {
+		panic(fmt.Sprintf("two-chains set-up: no UpdateValset on %s: %v", ref2, sortedKeys(g.obs)))
+	}
+	return &explore.Node{Ctx: c, Ghost: g}, keyB
+}
+
+// ops2 is the alphabet of the two-chains scenario: single signatures on the
+// first chain's SubmitLogicCall (A) and the second chain's UpdateValset (B) with
+// either of the validator's keys, and transactions carrying one entry for each,
+// in both orders and with every assignment of the two keys.
+func (e *env) ops2(n *explore.Node, keyA, keyB string) []explore.Op {
+	g := n.Ghost.(*ghost)
+	if g.obs == nil {
+		g.obs = e.observe(n.Ctx)
+	}
+	var ops []explore.Op
+	a, b := g.obs[keyA], g.obs[keyB]
+	if a == nil || b == nil {
+		return nil
+	}
+	for vi, v := range e.w.Vals {
+		vi, v := vi, v
+		type choice struct{ tag, addr string }
+		keys := []choice{{"k1", g.Reg[vi]}}
+		if g.Reg2[vi] != "" && g.Reg2[vi] != g.Reg[vi] {
+			keys = append(keys, choice{"k2", g.Reg2[vi]})
+		}
+		entry := func(it *itemObs, k choice) *ctypes.ConsensusMessageSignature {
+			return &ctypes.ConsensusMessageSignature{Id: it.ID, QueueTypeName: it.Queue, Signature: e.sign(k.addr, it.Bytes), SignedByAddress: k.addr}
+		}
+		send := func(label, target, class string, entries ...*ctypes.ConsensusMessageSignature) {
+			ops = append(ops, e.step(label, opCtx{vi, target, class}, func(ctx sdk.Context, g *ghost) (string, *explore.Fail) {
+				return e.deliver(ctx, v, &ctypes.MsgAddMessagesSignatures{Metadata: world.Meta(v.Actor), SignedMessages: entries})
+			}))
+		}
+		for _, k := range keys {
+			send(fmt.Sprintf("Sign(%s,A:%s)", v.Name, k.tag), keyA, "Sign1/A:"+k.tag, entry(a, k))
+			send(fmt.Sprintf("Sign(%s,B:%s)", v.Name, k.tag), keyB, "Sign1/B:"+k.tag, entry(b, k))
+		}
+		for _, ka := range keys {
+			for _, kb := range keys {
+				send(fmt.Sprintf("Sign(%s,[A:%s,B:%s])", v.Name, ka.tag, kb.tag), keyA+"|"+keyB, "Sign2/A:"+ka.tag+",B:"+kb.tag, entry(a, ka), entry(b, kb))
+				send(fmt.Sprintf("Sign(%s,[B:%s,A:%s])", v.Name, kb.tag, ka.tag), keyA+"|"+keyB, "Sign2/B:"+kb.tag+",A:"+ka.tag, entry(b, kb), entry(a, ka))
+			}
+		}
+	}
+	ops = append(ops, e.step("EndCons", opCtx{-1, "", "EndCons"}, func(ctx sdk.Context, g *ghost) (string, *explore.Fail) {
+		if err, panicked := world.Protect(func() error { return e.end(ctx) }); err != nil {
+			return "", explore.Failf("harness-endblock", "end-block failed (panic=%v): %v", panicked, err)
+		}
+		return "ok", nil
+	}))
+	return ops
 }
 
 // seed applies the labelled operations to a fork of the set-up state.
@@ -579,8 +694,23 @@ func (e *env) invariant(n *explore.Node) *explore.Fail {
 	// harness sanity: the registry in the store is what the ghost believes
 	for i, v := range e.w.Vals {
 		infos, err := e.w.App.ValsetKeeper.GetValidatorChainInfos(n.Ctx, v.ValAddr)
-		if err != nil || len(infos) != 1 || infos[0].Address != g.Lit[i] {
-			return explore.Failf("harness-registry", "registry of %s in store %v (err %v), ghost %s", v.Name, infos, err, g.Lit[i])
+		got1, got2, other := "", "", 0
+		for _, ci := range infos {
+			switch ci.ChainReferenceID {
+			case ref:
+				got1 = ci.Address
+			case ref2:
+				got2 = ci.Address
+			default:
+				other++
+			}
+		}
+		want2 := ""
+		if g.Reg2 != nil {
+			want2 = g.Reg2[i]
+		}
+		if err != nil || other != 0 || got1 != g.Lit[i] || got2 != want2 {
+			return explore.Failf("harness-registry", "registry of %s in store %v (err %v), ghost %s / %s", v.Name, infos, err, g.Lit[i], want2)
 		}
 	}
 	for _, key := range sortedKeys(g.obs) {
@@ -601,6 +731,9 @@ func (e *env) invariant(n *explore.Node) *explore.Fail {
 			want, ok := g.Sig[key][s.Val]
 			if !ok {
 				return explore.Failf("harness-ghost", "%s: stored signature of %s unknown to the ghost", key, s.Val)
+			}
+			if want == "" {
+				return explore.Failf("sig-wrong-key:"+where, "%s (%s): stored signature of %s was made with key %s; it had no key registered for this item's chain when it signed", key, it.What, s.Val, rec)
 			}
 			if want != rec {
 				return explore.Failf("sig-wrong-key:"+where, "%s (%s): stored signature of %s was made with key %s; when it signed it had registered %s", key, it.What, s.Val, rec, want)
@@ -641,9 +774,12 @@ func (e *env) step(label string, oc opCtx, f func(ctx sdk.Context, g *ghost) (st
 		if before == nil {
 			before = e.observe(*ctx)
 		}
-		regBefore := ""
+		reg1, reg2 := "", ""
 		if oc.actor >= 0 {
-			regBefore = g.Reg[oc.actor]
+			reg1 = g.Reg[oc.actor]
+			if g.Reg2 != nil {
+				reg2 = g.Reg2[oc.actor]
+			}
 		}
 		outcome, fail := f(*ctx, g)
 		if fail != nil {
@@ -675,20 +811,28 @@ func (e *env) step(label string, oc opCtx, f func(ctx sdk.Context, g *ghost) (st
 				delete(g.Prev, key)
 			}
 		}
-		for key, a := range after {
+		for _, key := range sortedKeys(after) {
+			a := after[key]
 			stored := map[string]bool{}
 			for _, s := range a.Sigs {
 				stored[s.Val] = true
 				if _, known := g.Sig[key][s.Val]; known {
 					continue
 				}
-				if oc.actor < 0 || e.w.Vals[oc.actor].Name != s.Val || key != oc.target {
+				if oc.actor < 0 || e.w.Vals[oc.actor].Name != s.Val || !strings.Contains("|"+oc.target+"|", "|"+key+"|") {
 					return explore.Failf("sig-foreign:"+a.Kind, "%s (%s): a signature credited to %s appeared in %s", key, a.What, s.Val, label)
+				}
+				if strings.HasPrefix(outcome, "rejected") {
+					return explore.Failf("rejected-tx-stored:"+a.Kind, "%s (%s): %s was %s and yet left a signature of %s", key, a.What, label, outcome, s.Val)
 				}
 				if g.Sig[key] == nil {
 					g.Sig[key] = map[string]string{}
 				}
-				g.Sig[key][s.Val] = regBefore
+				// the key this validator has registered for the item's chain
+				g.Sig[key][s.Val] = reg1
+				if a.Queue == e.tq2 {
+					g.Sig[key][s.Val] = reg2
+				}
 				outcome += "+stored"
 			}
 			for v := range g.Sig[key] {
